@@ -7,6 +7,7 @@ from check_doc import to_chars, from_chars, tla_seq, tla_char, palette_tla, PALE
 
 SPECIALQ = {"<EOL>": "\n", "<CR>": "\r", "<TAB>": "\t", "<U2>": "é", "<U4>": "𝄞"}
 SIGMA_FULL = ["a", "d", "t", "_", " ", "<TAB>", "'", "\"", ";", "<EOL>", "<CR>", "#", "$", "[", "]", "{", "}", "\\", "?", ".", ":"]
+SIGMA_MID = ["a", "_", " ", "'", "\"", ";", "<EOL>", "<CR>", "\\", "#"]
 SIGMA_QUICK = ["a", "_", " ", "'", "\"", ";", "<EOL>", "<CR>", "#", "[", "\\", "?", "<TAB>"]
 WORDS = ["data_", "data_a", "DaTa_x", "save_", "save_f", "loop_", "LOOP_", "loop_a", "stop_", "stop_x", "global_", "global_x", "gLoBaL_", "dat_", "_data", "?", ".", "??", ".1", "$a", "#", "'''", '"""',
          "a'''", 'a"""b', "'''a\"\"\"", "ab\r\ncd", "ab \r\ncd", "\r\n;x", "\r;x", ";\\\n", "a\\  \nb", "\\\n", " \\\nx", "x;;;y;;", ";;;", "a" * 2046, "a" * 2047, "a" * 2048, "a" * 2042 + "'", "'" + "a" * 2043,
@@ -104,10 +105,19 @@ def py_adm(s):
 def c18(tier, replay=None):
     rep = Report("C18", tier, "model_checking")
     binary = build("asan")
-    sigma, n = (SIGMA_QUICK, 3) if tier == "quick" else (SIGMA_FULL, 4)
-    out, st, wd = run_quote_tlc(sigma, n, tier)
-    strs = [o for tag, o in iter_tlc_json(out, ("STR",))]
-    cleanup(wd)
+    # quick: all strings of length <= 3 over 13 symbols; thorough: length <= 3 over the full alphabet of 21 symbols and
+    # length <= 4 over the ten symbols that interact (quotes, semicolon, line ends, backslash, blank, hash)
+    configs = [(SIGMA_QUICK, 3)] if tier == "quick" else [(SIGMA_FULL, 3), (SIGMA_MID, 4)]
+    strs, seen_strs = [], set()
+    st = {"distinct": 0, "generated": 0}
+    for sigma, n in configs:
+        out, st_i, wd = run_quote_tlc(sigma, n, tier)
+        for tag, o in iter_tlc_json(out, ("STR",)):
+            key = json.dumps(o["s"])
+            if key not in seen_strs:
+                seen_strs.add(key); strs.append(o)
+        cleanup(wd)
+        st = dict(st_i, distinct=st["distinct"] + st_i["distinct"], generated=st["generated"] + st_i["generated"])
     items = []
     for o in strs:
         s = s_of(o["s"])
